@@ -48,6 +48,8 @@ def run_mechanism(name, params, records, attrs, sizes, interposer, iters_cap=25)
                 m = R.load_mechanism("aim")
                 wl = [(tuple(c), 1.0) for c in params.get("workload") or itertools.combinations(attrs, 2)]
                 kw = {"structural_zeros": {tuple(k_.split(",")): [tuple(c_) for c_ in v_] for k_, v_ in params["structural_zeros"].items()}} if params.get("structural_zeros") else {}
+                if params.get("prng"):
+                    kw["prng"] = np.random          # callers that hand the mechanism their random source
                 mech = m.AIM(params["epsilon"], params["delta"], rounds=params.get("rounds"), max_model_size=params.get("max_model_size", 80), **kw)
                 out = mech.run(data, wl)
             elif name == "MWEM":
